@@ -41,6 +41,7 @@ static std::string checkPair(const std::string &pattern, const std::string &head
     if (!live || header.compare(0, 2, ":*") == 0) return "";   // ':*XXX' is not a lexically valid header: only the direct calls apply
     // through the public API on a live context
     InstCfg k; k.bufLen = header.size() + 8; k.queueLen = 4;
+    k.decoy = (hashStr(pattern + header) & 3) == 0;      // a quarter of the live cases run next to a second instrument (fixture.hpp)
     Cmd c; c.pattern = pattern; c.script.numbers = nn; c.script.numDefault = kDefault; c.script.isCmdProbes.push_back(header); k.cmds.push_back(c);
     Inst I(k);
     I.input(header + "\n");
